@@ -289,7 +289,27 @@ def corpus():
             Field('blob', '[ubyte]', nested='Item'), Field('big', 'A32'), Field('bigs', '[A32]'), Field('words', '[string]'),
             Field('flag', 'bool'), Field('cnt', 'ulong', '1'), Field('pv', '[V3]')]),
     ], 'Mix', ident='MIXD'))
+    # 7. a wide table of same-size fields, many sibling instances that differ only in WHICH high-id fields are present
+    #    (vtables of equal length and table size with equal leading entries: exercises the vtable cache comparison)
+    S.append(Schema('bwide', [
+        Table('W', [Field('f%d' % i, 'int', str(i)) for i in range(30)]),
+        Table('WR', [Field('ws', '[W]'), Field('tag', 'int')]),
+    ], 'WR'))
     return S
+
+
+def wide_value(s, rng, count=130):
+    """root of schema bwide: `count` W tables with fields f0..f13 and f29 present and 6 of f14..f28, distinct patterns"""
+    fields = s.tables['W'].fields
+    seen, ws = set(), []
+    while len(ws) < count:
+        pat = tuple(sorted(rng.sample(range(14, 29), 6)))
+        if pat in seen: continue
+        seen.add(pat)
+        ids = list(range(14)) + list(pat) + [29]
+        ws.append(Node('table', 'W', [(fields[i], Node('bytes', struct.pack('<i', rng.randint(-2 ** 31, 2 ** 31 - 1) if rng.random() < 0.5 else 1000 + i))) for i in ids]))
+    wr = s.tables['WR'].fields
+    return Node('table', 'WR', [(wr[0], Node('offvec', ws)), (wr[1], Node('bytes', struct.pack('<i', len(ws))))])
 
 
 # ----------------------------------------------------------------------------------------- value trees
@@ -644,6 +664,32 @@ class ScriptGen:
                 if v.a != 0:
                     madds.append('i/%d/1/1/%02x' % (f.id - 1, v.a)); madds.append('o/%d/%d' % (f.id, r))
                 kept.append((f, v))
+            elif k == 'uvec' and rng.random() < 0.6:
+                # <T>_<f>_start, per element <T>_<f>_<Member>_push / _push_create / _push_create_str(n) / _push_start..end /
+                # _push_clone / _push_slice (string members inline), <T>_<f>_push(NONE), <T>_<f>_end
+                u = f.type[1:-1]
+                members = s.unions[u].members
+                elems2 = []
+                for c, e in v.a:
+                    if c and members[c - 1][1] == 'string': elems2.append((c, Node('str', e.a)))
+                    else: elems2.append((c, e))
+                v = Node('uvec', elems2, v.b)
+                pre = {}
+                for idx, (c, e) in enumerate(v.a):
+                    if c and members[c - 1][1] != 'string': pre[idx] = self.node(e)
+                els, mel = [], []
+                for idx, (c, e) in enumerate(v.a):
+                    if c == 0:
+                        els.append('0/x/-'); mel.append('0/-')
+                    elif members[c - 1][1] == 'string':
+                        st = rng.choice(['p', 'c', 'b', 'k', 'l'] + (['s', 'n'] if 0 not in e.a else []))
+                        els.append('%d/%s/%s' % (c, st, hx(e.a))); self.stat('GX' + st)
+                        self.m.append('S:' + hx(e.a)); r = self.new(); self.opaque.add(r); mel.append('%d/%d' % (c, r))
+                    else:
+                        els.append('%d/r/%d' % (c, pre[idx])); mel.append('%d/%d' % (c, pre[idx]))
+                self.h.append('GX:%d:%d:%s' % (t, j, ','.join(els) if els else '-'))
+                self.m.append('U:' + (','.join(mel) if mel else '-')); rv = self.new(2); rt = rv + 1; self.opaque.update([rv, rt])
+                madds.append('o/%d/%d' % (f.id - 1, rt)); madds.append('o/%d/%d' % (f.id, rv)); kept.append((f, v))
             elif k == 'uvec':
                 rv, rt = self.uvec([(c, None if e is None else self.node(e)) for c, e in v.a])
                 self.h.append('Gv:%d:%d:%d:%d' % (t, j, rt, rv))
@@ -662,6 +708,32 @@ class ScriptGen:
                 v.c['with_size'] = False; v.c['gen_create'] = True
                 self.opaque.update([rs, rb])     # the generated call does not return these two references (the harness records 0)
                 self.stat('nested_struct_create_as_root')
+            elif k == 'string' and rng.random() < 0.6:
+                # <T>_<f>_create / _create_str / _create_strn / _start+append+_end / _clone / _slice (a private copy of the value:
+                # the call does not return the reference, so the object cannot be shared)
+                v = Node('str', v.a)
+                st = rng.choice(['c', 'b', 'k', 'l'] + (['s', 'n'] if 0 not in v.a else []))
+                self.h.append('GS:%d:%d:%s:%s' % (t, j, st, hx(v.a))); self.stat('GS' + st)
+                self.m.append('S:' + hx(v.a)); r = self.new(); self.opaque.add(r)
+                madds.append('o/%d/%d' % (f.id, r)); kept.append((f, v))
+            elif k == 'vec' and not f.nested and rng.random() < 0.6:
+                v = Node('vec', list(v.a), v.b)
+                sz, al = s.inline_size_align(v.b)
+                st = rng.choice(['c', 'p', 'e', 'a', 't'])
+                data = b''.join(v.a)
+                self.h.append('GV:%d:%d:%s:%d:%s' % (t, j, st, len(v.a), hx(data))); self.stat('GV' + st)
+                self.m.append('V:%d:%d:%d:%d:%s' % (sz, al, UOFFSET_MAX // sz, len(v.a), hx(data))); r = self.new(); self.opaque.add(r)
+                madds.append('o/%d/%d' % (f.id, r)); kept.append((f, v))
+            elif k == 'strvec' and rng.random() < 0.6:
+                v = Node('offvec', [Node('str', e.a) for e in v.a])
+                els, regs = [], []
+                for e in v.a:
+                    st = rng.choice(['p', 'c', 'b', 'k', 'l'] + (['s', 'n'] if 0 not in e.a else []))
+                    els.append('%s/%s' % (st, hx(e.a))); self.stat('GW' + st)
+                    self.m.append('S:' + hx(e.a)); r = self.new(); self.opaque.add(r); regs.append(r)
+                self.h.append('GW:%d:%d:%s' % (t, j, ','.join(els) if els else '-'))
+                self.m.append('O:' + (','.join(map(str, regs)) if regs else '-')); r = self.new(); self.opaque.add(r)
+                madds.append('o/%d/%d' % (f.id, r)); kept.append((f, v))
             else:
                 r = self.node(v)
                 self.h.append('Go:%d:%d:%d' % (t, j, r)); madds.append('o/%d/%d' % (f.id, r)); kept.append((f, v))
@@ -1230,6 +1302,72 @@ def gen_glue_build(s):
                     args.append('a%d' % k)
                 w('      rc = %s_%s_create_as_root(B, %s); push_reg(0); push_reg(0); } break;' % (tn, fl.name, ', '.join(args)))
     w('  } free(d); return rc; }')
+    # strings, vectors, string vectors and union vectors through the generated field builders
+    def str_field_cases(P):
+        return ("switch (st) { case 'c': rc = %s_create(B, (const char *)d, n); break; case 's': rc = %s_create_str(B, z); break;"
+                " case 'n': rc = %s_create_strn(B, z, n + 3); break;"
+                " case 'b': rc = %s_start(B); if (!rc) { size_t h = n / 2; if (h && !flatbuffers_string_append(B, (const char *)d, h)) rc = -1;"
+                " if (n - h && !flatbuffers_string_append(B, (const char *)d + h, n - h)) rc = -1; if (!rc) rc = %s_end(B); } break;"
+                " case 'k': rc = %s_clone(B, fs); break; case 'l': rc = %s_slice(B, fs2, 2, n); break; }" % ((P,) * 7))
+
+    def str_push_cases(P):
+        return ("switch (st) { case 'p': ok = 0 != %s_push(B, flatbuffers_string_create(B, (const char *)d, n)); break;"
+                " case 'c': ok = 0 != %s_push_create(B, (const char *)d, n); break; case 's': ok = 0 != %s_push_create_str(B, z); break;"
+                " case 'n': ok = 0 != %s_push_create_strn(B, z, n + 3); break;"
+                " case 'b': ok = !%s_push_start(B); if (ok) { size_t h = n / 2; if (h && !flatbuffers_string_append(B, (const char *)d, h)) ok = 0;"
+                " if (n - h && !flatbuffers_string_append(B, (const char *)d + h, n - h)) ok = 0; if (ok) ok = 0 != %s_push_end(B); } break;"
+                " case 'k': ok = 0 != %s_push_clone(B, fs); break; case 'l': ok = 0 != %s_push_slice(B, fs2, 2, n); break; }" % ((P,) * 8))
+    w('#define STR_PREP() do { n = hx_decode(hexs, &d); z = (char *)malloc(n + 1); memcpy(z, d, n); z[n] = 0; \\')
+    w('    fsb = (uint8_t *)malloc(n + 8); { uint32_t l_ = (uint32_t)n; memcpy(fsb, &l_, 4); } memcpy(fsb + 4, d, n); fsb[4 + n] = 0; fs = (flatbuffers_string_t)(fsb + 4); \\')
+    w('    fsb2 = (uint8_t *)malloc(n + 12); { uint32_t l_ = (uint32_t)n + 3; memcpy(fsb2, &l_, 4); } fsb2[4] = \'x\'; fsb2[5] = \'y\'; memcpy(fsb2 + 6, d, n); fsb2[6 + n] = \'z\'; fsb2[7 + n] = 0; fs2 = (flatbuffers_string_t)(fsb2 + 4); } while (0)')
+    w('#define STR_DONE() do { free(d); d = 0; free(z); free(fsb); free(fsb2); } while (0)')
+    w('  { char *z = 0; uint8_t *fsb = 0, *fsb2 = 0; flatbuffers_string_t fs = 0, fs2 = 0; const char *hexs; char st; int ok; (void)ok; (void)fs; (void)fs2; (void)z;')
+    w('  if (!strcmp(f[0], "GS")) { int rc = -1; st = f[3][0]; hexs = f[4]; STR_PREP(); switch (key) {')
+    for i, tn in enumerate(tabs):
+        for j, fl in enumerate(s.live_fields(tn)):
+            if s.kind(fl.type) == 'string':
+                w('    case %d: %s break;' % (i * 1000 + j, str_field_cases('%s_%s' % (tn, fl.name))))
+    w('  } STR_DONE(); push_reg(0); return rc; }')
+    w('  if (!strcmp(f[0], "GV")) { int rc = -1; size_t cnt = strtoul(f[4], 0, 10), i_; st = f[3][0]; n = hx_decode(f[5], &d); (void)i_; switch (key) {')
+    for i, tn in enumerate(tabs):
+        for j, fl in enumerate(s.live_fields(tn)):
+            if s.kind(fl.type) == 'vec' and not fl.nested:
+                e = fl.type[1:-1]
+                et = '%s_t' % e if e in s.structs else ctype(e)
+                P = '%s_%s' % (tn, fl.name)
+                esz = s.inline_size_align(e)[0]
+                w('    case %d: { const %s *p_ = (const %s *)d; (void)p_; switch (st) {' % (i * 1000 + j, et, et))
+                w('      case \'c\': rc = %s_create(B, p_, cnt); break;' % P)
+                w('      case \'p\': rc = %s_start(B); for (i_ = 0; !rc && i_ < cnt; ++i_) if (!%s_push(B, p_ + i_)) rc = -1; if (!rc) rc = %s_end(B); break;' % (P, P, P))
+                w('      case \'e\': rc = %s_start(B); if (!rc) { %s *q_ = %s_extend(B, cnt); if (!q_ && cnt) rc = -1; else if (cnt) memcpy(q_, d, cnt * %d); } if (!rc) rc = %s_end(B); break;' % (P, et, P, esz, P))
+                w('      case \'a\': rc = %s_start(B); if (!rc) { size_t h = cnt / 2; if (h && !%s_append(B, p_, h)) rc = -1; if (cnt - h && !%s_append(B, p_ + h, cnt - h)) rc = -1; } if (!rc) rc = %s_end(B); break;' % (P, P, P, P))
+                w('      case \'t\': rc = %s_start(B); if (!rc && cnt) { if (!%s_append(B, p_, cnt) || !%s_push(B, p_) || %s_truncate(B, 1)) rc = -1; } if (!rc) rc = %s_end(B); break;' % (P, P, P, P, P))
+                w('    } } break;')
+    w('  } free(d); push_reg(0); return rc; }')
+    w('  if (!strcmp(f[0], "GW")) { static char *el_[4096]; int ne = split_ch(f[3], \',\', el_, 4096), k_, rc = -1; switch (key) {')
+    for i, tn in enumerate(tabs):
+        for j, fl in enumerate(s.live_fields(tn)):
+            if s.kind(fl.type) == 'strvec':
+                P = '%s_%s' % (tn, fl.name)
+                w('    case %d: rc = %s_start(B); for (k_ = 0; !rc && k_ < ne; ++k_) { st = el_[k_][0]; hexs = el_[k_] + 2; STR_PREP(); ok = 0; %s STR_DONE(); push_reg(0); if (!ok) rc = -1; } if (!rc) rc = %s_end(B); break;'
+                  % (i * 1000 + j, P, str_push_cases(P), P))
+    w('  } push_reg(0); return rc; }')
+    w('  if (!strcmp(f[0], "GX")) { static char *el_[4096]; int ne = split_ch(f[3], \',\', el_, 4096), k_, rc = -1; switch (key) {')
+    for i, tn in enumerate(tabs):
+        for j, fl in enumerate(s.live_fields(tn)):
+            if s.kind(fl.type) == 'uvec':
+                u = fl.type[1:-1]
+                P = '%s_%s' % (tn, fl.name)
+                w('    case %d: rc = %s_start(B); for (k_ = 0; !rc && k_ < ne; ++k_) { char *c1 = strchr(el_[k_], \'/\'), *c2; int code; *c1 = 0; code = atoi(el_[k_]); c2 = strchr(c1 + 1, \'/\'); *c2 = 0; st = c1[1]; ok = 0; switch (code) {' % (i * 1000 + j, P))
+                w('      case 0: { %s_union_ref_t u_; u_.type = 0; u_.value = 0; ok = 0 != %s_push(B, u_); } break;' % (u, P))
+                for code, (mn, mt) in enumerate(s.unions[u].members, 1):
+                    if mt == 'string':
+                        w('      case %d: hexs = c2 + 1; STR_PREP(); %s STR_DONE(); push_reg(0); break;' % (code, str_push_cases('%s_%s' % (P, mn))))
+                    else:
+                        w('      case %d: ok = 0 != %s_%s_push(B, regs[atoi(c2 + 1)]); break;' % (code, P, mn))
+                w('      } if (!ok) rc = -1; } if (!rc) rc = %s_end(B); break;' % P)
+    w('  } push_reg(0); push_reg(0); return rc; }')
+    w('  }')
     # T_create with every field
     w('  if (!strcmp(f[0], "Gc")) { static char *a[256]; int na = split_ch(f[2], \',\', a, 256); flatcc_builder_ref_t r = 0; (void)na; switch (t) {')
     for i, tn in enumerate(tabs):
